@@ -226,6 +226,7 @@ func runC19(c *fw.Ctx, id string, rq c19Req) {
 	if rerr == nil {
 		outcome = "accepted"
 	}
+	env.monitors(id)
 	c.Count("requests_"+outcome, 1)
 	c.Nontrivial(fmt.Sprintf("%s/%s/%s-%s/port-%s/%s/http%v/%s", proto, rq.method, ttlClass(minTTL), ttlClass(rq.maxTTL), portClass(rq.port), rq.targetForm, rq.viaHTTP, outcome))
 	detail := map[string]any{"request": rq.String(), "error": fmt.Sprint(rerr), "probes_on_wire": len(ems)}
